@@ -41,7 +41,7 @@ T = {
             "Angle range and exact congruence (50-digit decimal reduction) of every SE(2) pose, unit norm vs operation depth of every SE(3) pose, normalize() post-condition; chains up to 10^4 operations, angles to 1e6, optimizer runs to 50 iterations. Exploration of histories.",
             "decimal arithmetic for the exact angle; depth-scaled norm bound"),
     "C12": ("recorded chi2 trace (single-iteration driving) replayed through an executable model of the stopping rule",
-            "The real optimizer's report and stopping decision are compared with a 15-line model of the documented rule replayed on the chi2 sequence obtained by driving the real code one iteration at a time; verbose on/off and every call split are compared bitwise. Exploration of configurations and histories.",
+            "The documented stopping rule is replayed exactly on the chi2 sequence each real optimize() call itself reports (where it had to stop, what it had to report); the reported values are compared with an independent trajectory obtained by driving the real code one iteration at a time (stopping point too, except at near ties); verbose on/off and every call split are compared. Exploration of configurations and histories.",
             "single-iteration driving equals the trajectory (itself checked by the split relation)"),
     "C13": ("export -> file -> import cycles with element-wise lossless comparison and independent re-tokenisation",
             "Generated graphs are written by the real to_g2o, re-read by the real from_g2o for 1-5 cycles and compared bit-for-bit (angles modulo 2pi, quaternions up to renormalisation/sign), the file is re-tokenised independently, inexpressible content must raise. Exploration.",
